@@ -25,16 +25,16 @@ type Anchors struct {
 
 	// updog
 	Execute, GetSchema, IndexClose, OpenIndex, OpenFromDB *ssa.Function
-	WithCache, WithPreloaded, WithMetrics                  *ssa.Function
-	NewPreloaded, GetValueIndex                            *ssa.Function
-	LRUGet, LRUPut, NewLRU                                 *ssa.Function
-	MemAddRow, MemFlush, MemWrite, BigAddRow, BigFlush     *ssa.Function
-	NewBig, NewMem, SchemaAdd                              *ssa.Function
-	IndexT, QueryT, SchemaT, ColumnT, LRUT, LRUItemT       *types.Named
-	PreloadedT, OnDemandT, MemWriterT, BigWriterT          *types.Named
-	ExprIface, CacheIface, GetterIface                     *types.Named
-	ExprImpls                                              []*types.Named
-	KeySchema, KeyRows, KeyValue                           *ssa.Global
+	WithCache, WithPreloaded, WithMetrics                 *ssa.Function
+	NewPreloaded, GetValueIndex                           *ssa.Function
+	LRUGet, LRUPut, NewLRU                                *ssa.Function
+	MemAddRow, MemFlush, MemWrite, BigAddRow, BigFlush    *ssa.Function
+	NewBig, NewMem, SchemaAdd                             *ssa.Function
+	IndexT, QueryT, SchemaT, ColumnT, LRUT, LRUItemT      *types.Named
+	PreloadedT, OnDemandT, MemWriterT, BigWriterT         *types.Named
+	ExprIface, CacheIface, GetterIface                    *types.Named
+	ExprImpls                                             []*types.Named
+	KeySchema, KeyRows, KeyValue                          *ssa.Global
 
 	// queryparser
 	ParseQuery, ParserParse, ParseSimple, Walk, WalkInner, ReplacePH, QueryToString *ssa.Function
@@ -45,7 +45,7 @@ type Anchors struct {
 
 	// driver
 	DrvOpenFile, DrvOpen, FileConnClose, NewRows, FileStmtQuery, GrpcStmtQuery, NumInput *ssa.Function
-	DriverT, FileConnT                                                                  *types.Named
+	DriverT, FileConnT                                                                   *types.Named
 
 	// cmd
 	CreateCmd, NormalizeHeader, Main, ServerQuery, ServerCmd, SchemaCmd *ssa.Function
